@@ -259,7 +259,8 @@ func c11r3(c *Check) {
 		c.Hold("aggregator.AddMaybe drop-raw exactness", c.AtFn(addMaybe), fmt.Sprintf("%d paths, %d returning true, all after PreMatch, confirmed match and hand-off", len(paths), nTrue))
 	}
 	// matchWithCache: on a cache hit the verdict returned is entry.match
-	mwc := c.P.Func("aggregator", "*Aggregator", "matchWithCache")
+	outer := c.P.Func("aggregator", "*Aggregator", "matchWithCache")
+	mwc, _ := cacheLookupFunc(c)
 	cacheF := c.P.Field("aggregator", "Aggregator", "reCache")
 	var lookup *ssa.Lookup
 	allInstrs(mwc, func(in ssa.Instruction) {
@@ -276,7 +277,7 @@ func c11r3(c *Check) {
 	okHit, nHit := true, 0
 	allInstrs(mwc, func(in ssa.Instruction) {
 		r, ok := in.(*ssa.Return)
-		if !ok || len(r.Results) != 2 {
+		if !ok || (len(r.Results) != 2 && mwc == outer) || len(r.Results) == 0 {
 			return
 		}
 		// is this return under the lookup-ok edge?
@@ -296,6 +297,33 @@ func c11r3(c *Check) {
 			return
 		}
 		nHit++
+		if mwc != outer {
+			// the lookup lives in a helper that hands back the whole entry: on a hit it returns the entry it
+			// looked up, and matchWithCache returns that entry's key and match
+			root, names := fieldPath(r.Results[0])
+			if ex, ok := root.(*ssa.Extract); !ok || ex.Tuple != lookup || ex.Index != 0 || len(names) != 0 {
+				okHit = false
+			}
+			allInstrs(outer, func(in2 ssa.Instruction) {
+				r2, ok := in2.(*ssa.Return)
+				if !ok || len(r2.Results) != 2 {
+					return
+				}
+				if k, ok := r2.Results[1].(*ssa.Const); ok && k.Value != nil {
+					return // the cache-off path returns MatchRegexAndExpand's results, or constants
+				}
+				rootK, namesK := fieldPath(r2.Results[0])
+				rootM, namesM := fieldPath(r2.Results[1])
+				cK, okK := rootK.(*ssa.Call)
+				cM, okM := rootM.(*ssa.Call)
+				if okK && okM && cK.Call.StaticCallee() == mwc && cM == cK {
+					if !(len(namesK) == 1 && namesK[0] == "key" && len(namesM) == 1 && namesM[0] == "match") {
+						okHit = false
+					}
+				}
+			})
+			return
+		}
 		root, names := fieldPath(r.Results[1])
 		isEntry := false
 		if ex, ok := root.(*ssa.Extract); ok && ex.Tuple == lookup && ex.Index == 0 {
